@@ -1,6 +1,7 @@
 package props
 
 import (
+	"strings"
 	"bytes"
 	"fmt"
 	"io"
@@ -206,6 +207,26 @@ func genC24(seed uint64, tier string) any {
 	if sc.Server.KeyKind == "rsa" && r.Chance(1, 4) {
 		// finite-field DHE is rare in the table: make sure it is negotiated often enough
 		core = []uint16{[]uint16{0x0033, 0x0039, 0x0067, 0x006b, 0x009e, 0x009f, 0xccaa, 0x0016}[r.Intn(8)]}
+	}
+	if r.Chance(1, 5) {
+		// a second certificate of the other family (RSA vs ECDSA/Ed25519)
+		if sc.Server.KeyKind == "rsa" {
+			sc.Server.KeyKind2 = []string{"p256", "p384", "ed"}[r.Intn(3)]
+		} else {
+			sc.Server.KeyKind2 = "rsa"
+		}
+		// suites for the second key join the shared core in half of these runs
+		if r.Bool() {
+			var fit2 []uint16
+			for _, s := range suiteTable {
+				if s.Kx != kxTLS13 && s.keyOK(sc.Server.KeyKind2) {
+					fit2 = append(fit2, s.ID)
+				}
+			}
+			for _, i := range r.Perm(len(fit2))[:r.Range(1, 2)] {
+				core = append(core, fit2[i])
+			}
+		}
 	}
 	sc.Client.Suites = genSuiteList(r, core, 6, true)
 	sc.Server.Suites = genSuiteList(r, core, 8, r.Chance(1, 3))
@@ -497,7 +518,7 @@ type c24Expect struct {
 	ALPN        string
 }
 
-func c24Model(sc *c24Scenario, offered []uint16, clientVersions []uint16, clientCurves []uint16) c24Expect {
+func c24Model(sc *c24Scenario, offered []uint16, clientVersions []uint16, clientCurves []uint16, keys []string) c24Expect {
 	var e c24Expect
 	sv := versionSet(sc.Server.MinVersion, sc.Server.MaxVersion)
 	e.Version = sharedVersion(clientVersions, sv)
@@ -514,7 +535,24 @@ func c24Model(sc *c24Scenario, offered []uint16, clientVersions []uint16, client
 			curveOK = true
 		}
 	}
-	key := sc.Server.KeyKind
+	// usable with (one of) the server's keys at this version
+	keyFits := func(s *suiteInfo) bool {
+		for _, key := range keys {
+			if strings.HasPrefix(key, "strict:") {
+				// several certificates: an ECDSA certificate is only *selected* for a client that lists the
+				// certificate's own curve (RFC 4492 5.1); with a single certificate there is nothing to select
+				key = key[7:]
+				both := func(c uint16) bool { return u16in(c, clientCurves) && u16in(c, effCurves(sc.Server.Curves)) }
+				if e.Version != vTLS13 && (key == "p256" && !both(23) || key == "p384" && !both(24)) {
+					continue // (the server's CurvePreferences restrict the certificate curves it selects, too)
+				}
+			}
+			if s.keyOK(key) && !(key == "ed" && e.Version < vTLS12) {
+				return true
+			}
+		}
+		return false
+	}
 	if e.Version == vTLS13 {
 		var cands []uint16
 		for _, id := range offered {
@@ -537,10 +575,7 @@ func c24Model(sc *c24Scenario, offered []uint16, clientVersions []uint16, client
 		sure := false
 		for _, id := range offered {
 			s := suiteByID[id]
-			if s == nil || !s.usableAt(e.Version) || !s.keyOK(key) {
-				continue
-			}
-			if key == "ed" && e.Version < vTLS12 {
+			if s == nil || !s.usableAt(e.Version) || !keyFits(s) {
 				continue
 			}
 			if (s.Kx == kxECDHERSA || s.Kx == kxECDHEECDSA) && !curveOK {
@@ -726,7 +761,15 @@ func c24Check(sc *c24Scenario, co *connOutcome, second bool, first *connOutcome,
 		effVersions = ev
 		o.count("fault.downgrade_rewrite", 1)
 	}
-	exp := c24Model(sc, ch.Suites, effVersions, clientCurves)
+	keys := []string{sc.Server.KeyKind}
+	if sc.Server.KeyKind2 != "" {
+		keys = append(keys, sc.Server.KeyKind2)
+	}
+	exp := c24Model(sc, ch.Suites, effVersions, clientCurves, keys)
+	if len(keys) > 1 {
+		strict := c24Model(sc, ch.Suites, effVersions, clientCurves, []string{"strict:" + keys[0], "strict:" + keys[1]})
+		exp.MustWork = strict.MustWork
+	}
 	if exp.MustFail || exp.MustWork {
 		o.Nontrivial = true
 	}
@@ -773,8 +816,26 @@ func c24Check(sc *c24Scenario, co *connOutcome, second bool, first *connOutcome,
 	if si == nil || !si.usableAt(cs.Version) {
 		return Failf("c24.suite", "negotiated suite is not defined for the negotiated version", "suite %04x version %04x", cs.CipherSuite, cs.Version)
 	}
-	if !si.keyOK(sc.Server.KeyKind) {
-		return Failf("c24.suite", "negotiated suite cannot be authenticated with the server key", "suite %04x key %s", cs.CipherSuite, sc.Server.KeyKind)
+	chosenKey := sc.Server.KeyKind
+	if sc.Server.KeyKind2 != "" {
+		// which of its certificates did the server present? (The first one compatible with the client is documented
+		// to be selected; preference among suites is then judged for that certificate's key.)
+		chosenKey = ""
+		if len(cs.PeerCertificates) > 0 {
+			for _, k := range keys {
+				if bytes.Equal(cs.PeerCertificates[0].Raw, pki().Server[k].DER) {
+					chosenKey = k
+				}
+			}
+		}
+		if chosenKey == "" {
+			return Failf("c24.cert", "server presented a certificate that is not one of its configured certificates", "keys %v", keys)
+		}
+		o.count("probe.multi_cert_chose_"+map[bool]string{true: "first", false: "second"}[chosenKey == sc.Server.KeyKind], 1)
+		exp = c24Model(sc, ch.Suites, effVersions, clientCurves, []string{chosenKey})
+	}
+	if !si.keyOK(chosenKey) {
+		return Failf("c24.suite", "negotiated suite cannot be authenticated with the server key", "suite %04x key %s", cs.CipherSuite, chosenKey)
 	}
 	if exp.ServerKnown && cs.Version != vTLS13 && !u16in(cs.CipherSuite, sc.Server.Suites) {
 		return Failf("c24.suite", "negotiated suite was not enabled by the server", "suite %04x server %04x", cs.CipherSuite, sc.Server.Suites)
